@@ -33,7 +33,7 @@ type missingAnchor struct {
 }
 
 type Gen struct {
-	missing     []missingAnchor
+	missing      []missingAnchor
 	prog         *ssa.Program
 	pkgs         []*packages.Package
 	byPath       map[string]*packages.Package
